@@ -243,4 +243,23 @@ PROPS = {
                        "column in table order, nullable union exactly when the column has a default. Tied by exact JSON text correspondence on the full "
                        "type list with/without defaults and on random schemas/selections.",
     },
+
+    "C17": {
+        "level": "proof",
+        "lean_modules": ["SqlizeModel.Props.C17"],
+        "theorems": ["Sqlize.C17.interleaving", "Sqlize.C17.only_constructor_writes_globals", "Sqlize.C17.no_go_statements", "Sqlize.C17.package_vars", "Sqlize.C17.written_vars"],
+        "suites": [{"name": "race", "binary": "harness-race", "timeout": 3600}],
+        "corr_points": None,
+        "rule": "race suite (harness built with -race): 6 (quick) / 40 (thorough) rounds; per round all instances (same options: dialect x case x "
+                "field-order) are constructed first, then 8 / 16 goroutines each drive their own pair of instances through load, HashValue, "
+                "MermaidJsErd, Diff, StringUp, StringDown, StringUpWithVersion, ArvoSchema, MermaidJsLive on workloads from the pair space; every "
+                "goroutine's results are compared with a sequential run; a data race reported by the detector (exit 66 / WARNING: DATA RACE) is a "
+                "violation. non-trivial = every goroutine job; distinct by (round, job)",
+        "trusted_base": COMMON_TB + ["regenerated facts (factgen, go/ast): every assignment to a package-level variable with its enclosing function, every go statement, every package-level var",
+                                     "the Go memory model, reflect and the third-party parsers' internals are outside the model; the race detector run validates, it does not prove"],
+        "assumptions": ["no constructor (NewSqlize) runs concurrently with other operations", "all instances of a run share the same options"],
+        "explanation": "Proved: for every interleaving of per-goroutine operation sequences (operations typed as reading globals and writing only the "
+                       "goroutine's own instances) each goroutine observes exactly its sequential results; the typing is justified by regenerated, "
+                       "kernel-checked facts (only NewMigration assigns package-level state; no go statements).",
+    },
 }
